@@ -428,4 +428,30 @@ example :
     some (⟨[2, 3, 2], [.num 0, .num 3, .nan, .num 4, .num 2, .num 5, .num 6, .num 9, .num 7, .inf, .num 8, .num 11]⟩,
           some [2, 3], some ⟨[2], [.num 4, .num 9]⟩) := by decide
 
+/-- hypotheses of `load_requires_mandatory`: a directory without any channel map -/
+example : Attr.channelMap.mandatory = true ∧ Absent exAlf Attr.spikeClusters.files ∧
+    Absent [("spike_times.npy", (⟨[2], [.num 1, .num 2]⟩ : Arr)), ("spike_templates.npy", ⟨[2], [.num 0, .num 1]⟩)]
+      Attr.channelMap.files := by decide
+example : NonDecreasing [1, 3, 3, 7] ∧ monotone ([1, 3, 3, 7].map Cell.num) = true ∧
+    monotone ([1, 3, 2].map Cell.num) = false :=
+  ⟨(monotone_spec [1, 3, 3, 7]).1 (by decide), by decide, by decide⟩
+example : roundHalfEven ((62 : Int) / (1000 : Rat) * 1000) = 62 ∧ roundHalfEven ((1 : Rat) / 16 * 1000) = 62 := by
+  decide +kernel
+/-- a dataset without templates (and without curation) loads; `n_templates` is the highest id + 1 -/
+example :
+    (match loadFull (β := Nat) id 1000 1 0 (.num 4) none
+        [("spike_times.npy", ⟨[3], [.num 1, .num 2, .num 5]⟩), ("spike_templates.npy", ⟨[3], [.num 0, .num 2, .num 0]⟩),
+         ("channel_map.npy", ⟨[2], [.num 0, .num 1]⟩), ("channel_positions.npy", ⟨[2, 2], [.num 0, .num 0, .num 0, .num 1]⟩)] with
+     | .ok (fv, _) => some (fv.base.templates, fv.nTemplates, fv.similar.shape, fv.duration)
+     | .error _ => none) = some (none, 3, [3, 3], 5 / 1000) := by decide +kernel
+example :
+    (match loadTemplateFeatures [("template_features.npy", ⟨[2, 2], [.num 1, .nan, .num 3, .num 4]⟩),
+                                 ("template_feature_spike_ids.npy", ⟨[2], [.num 0, .num 5]⟩)] 3 with
+     | .ok (some s) => some (s.data.data, s.cols, s.rows)
+     | _ => none) = some ([.num 1, .nan, .num 3, .num 4], none, some ⟨[2], [.num 0, .num 5]⟩) := by decide
+/-- hypothesis of `features_frame` for the six feature files -/
+example : ∀ name ∈ ["pc_features.npy", "pc_feature_ind.npy", "pc_feature_spike_ids.npy", "template_features.npy",
+      "template_feature_ind.npy", "template_feature_spike_ids.npy"],
+    ∀ g ∈ Lemmas.createdNames, globMatch name g = false := by decide
+
 end PhyVerif.C04
